@@ -185,7 +185,12 @@ func genC10(rng *rand.Rand, n int, emit func(Case), dist map[string]int) {
 		if kind == 2 || rng.Intn(2) == 0 {
 			for k := rng.Intn(4); k > 0; k-- {
 				var es []string
-				for j := 1 + rng.Intn(4); j > 0; j-- {
+				cnt := 1 + rng.Intn(4)
+				if rng.Intn(40) == 0 {
+					cnt = 30 + rng.Intn(12) // a long chain of hops (or of forged entries in front of the real ones)
+					dist["xff_long_lines"]++
+				}
+				for j := cnt; j > 0; j-- {
 					es = append(es, entry())
 				}
 				sep := ","
